@@ -1,7 +1,10 @@
 import Bip39V.Lemmas.TableFacts
+import Bip39V.Basic.SafeItem
 import Bip39V.Canonical.Czech
 /-! Kernel evaluation of NFKD stability over the complete pinned Czech list (pinned inputs only:
 checked once and cached). -/
 namespace Bip39V.Tab.Czech
 theorem canon_stable : (Canonical.Czech.toList.all fun n => stableWord (unpack n)) = true := by decide +kernel
+/-- no word of the pinned list contains a character the generator tool would escape (C17) -/
+theorem canon_safe : (Canonical.Czech.toList.all fun n => (unpack n).all safeItem) = true := by decide +kernel
 end Bip39V.Tab.Czech
